@@ -20,6 +20,7 @@ pub fn gen(lab: &str, rng: &mut Rng, n: usize) -> Vec<String> {
         "paint" => paint::gen(rng, n),
         l if l.starts_with("bench-p") => bench::gen(rng, n, l["bench-p".len()..].parse().unwrap()),
         "ovw" => reg::gen_ovw(rng, n),
+        "elist" => reg::gen_elist(rng, n),
         "sort" => sort::gen(rng, n),
         _ => panic!("unknown lab {lab}"),
     }
@@ -29,7 +30,7 @@ pub fn gen(lab: &str, rng: &mut Rng, n: usize) -> Vec<String> {
 pub fn exec(verb: &str, req: &str) -> String {
     let toks: Vec<&str> = req.split(' ').skip(1).collect();
     match verb {
-        "tsc" | "tsc3" | "tscshift" | "dur" | "prec" | "precs" => tsc::exec(verb, &toks),
+        "tsc" | "tsc3" | "tscshift" | "dur" | "osdur" | "prec" | "precs" => tsc::exec(verb, &toks),
         "prof" | "tally" | "tallymt" => alloc::exec(verb, &toks),
         "fd" | "f64" | "bytes" | "thr" => fmt::exec(verb, &toks),
         "natcmp" | "natcmp3" | "argcmp" | "argsort" => sort::exec(verb, &toks),
@@ -38,6 +39,7 @@ pub fn exec(verb: &str, req: &str) -> String {
         "paint" => paint::exec(&toks),
         "bench" => bench::exec(&toks),
         "ovw" => reg::exec_ovw(&toks),
+        "elist" => reg::exec_elist(&toks),
         _ => format!("bad-verb"),
     }
 }
